@@ -54,13 +54,23 @@ def documents(tier):
     for p in shapes.space_depth2("quick" if tier == "quick" else tier, contexts=["def", "member_opt", "ext_payload"] if tier == "quick" else ["def", "member_opt", "ext_payload", "root", "vec_item"]):
         docs.append({"id": p["id"], "doc": p["doc"], "settings": {"struct_builder": True}})
     for c in C07.cases("quick", 0):
-        if c["n"] == 2 or (c["n"] == 1 and c["share"]):
+        if (c["n"] == 2 and not c.get("repl") and (tier != "quick" or all(nd[0] in ("struct", "alias", "enum") for nd in c["nodes"]))) or (c["n"] == 1 and c["share"]):
             docs.append({"id": "graph:" + c["key"], "doc": c["doc"], "settings": {}})
     for c in diamond_family():
         docs.append({"id": "diamond:" + c["key"], "doc": c["doc"], "settings": {}})
     if tier != "quick":
         for p in shapes.pairs(tier)[::3]:
             docs.append({"id": p["id"], "doc": p["doc"], "settings": {"struct_builder": True}})
+    # documents whose rendering goes through the shared `defaults` module and through name-collision handling
+    from . import C01, C06
+    for c in C01.collision_family():
+        if c["shape"] in ("default-fn-names", "type-default-omits-member") or tier != "quick":
+            docs.append({"id": "collide:" + c["id"], "doc": c["doc"], "settings": c.get("settings", {"struct_builder": True})})
+    seen_kind = set()
+    for c in C06.cases(tier, 0):
+        if c["valid"] and c["pos"] == "member" and c["ops"] is None and c.get("src") == "hand" and (tier != "quick" or c["kind"] not in seen_kind):
+            seen_kind.add(c["kind"])
+            docs.append({"id": "default:" + c["id"], "doc": c["doc"], "settings": c["settings"]})
     seen, res = set(), []
     for d in docs:
         k = key_of([d["doc"], d["settings"]])
